@@ -8,27 +8,85 @@
    With -simulate the same spec yields random longer strings.
    bom = TRUE: the driver puts the UTF-8 byte order mark EF BB BF in front of the string.  The BOM
    is not part of the text: the line table (and every position that "exists") is that of the
-   string without it. *)
+   string without it.
+   A second family of inputs (token level) is described further down. *)
 EXTENDS SrcLines, TLC, Json
 CONSTANTS MaxLen, Alphabet, ExportMin,
           Boms,        \* subset of BOOLEAN
-          BomMaxLen    \* maximal length of a string that is preceded by a byte order mark
-VARIABLES text, bom
-vars == <<text, bom>>
+          BomMaxLen,   \* maximal length of a string that is preceded by a byte order mark
+          Family,      \* "bytes": the strings described above | "tokens": the families below
+          TokBounds    \* tokens: set of <<context, syntax, maximal number of tokens>>
+VARIABLES text, bom, ctx, syn
+vars == <<text, bom, ctx, syn>>
 
-Init == text = <<>> /\ bom \in Boms
-Next == /\ Len(text) < (IF bom THEN BomMaxLen ELSE MaxLen)
-        /\ \E c \in Alphabet : text' = Append(text, c)
-        /\ UNCHANGED bom
+-----------------------------------------------------------------------------
+(* Input family (iii): TOKEN-LEVEL inputs.  Up to n grammar tokens from a small alphabet are put
+   in a fixed syntactic context given here (a header line, a prefix line, the tokens separated by
+   single spaces, a suffix line), so that the parser's productions for compact options, field and
+   file level declarations -- and the descriptor conversion / validation behind them -- are reached
+   with every short token sequence, which byte strings of length 5 and mutants of valid files do
+   not do.  Tokens are their own text (ASCII, no TAB, no LF), so the line table of an input is the
+   length of each of its four lines. *)
+OptToks   == {"features", "features.x", "default", "packed", "deprecated", "json_name", "(a)",
+              "=", "1", "'s'", "true", ","}
+FieldToks == {"optional", "required", "repeated", "int32", "map<", "string>", "group", "f", "=",
+              "1", ";", "{", "}", "oneof", "reserved", "extensions", "to", "max"}
+FileToks  == {"syntax", "edition", "=", "'proto2'", "import", "public", "weak", "package",
+              "option", ";", "a", "."}
+OptContexts == {"fieldopt", "enumval", "extrange", "oneoffield"}
+Contexts    == OptContexts \cup {"msgbody", "file"}
+Syntaxes    == {"proto2", "proto3", "ed2023", "none"}
+
+ToksOf(c) == IF c \in OptContexts THEN OptToks ELSE IF c = "msgbody" THEN FieldToks ELSE FileToks
+
+Header(sy) == CASE sy = "proto2" -> "syntax = 'proto2';"
+                [] sy = "proto3" -> "syntax = 'proto3';"
+                [] sy = "ed2023" -> "edition = '2023';"
+                [] OTHER -> ""
+(* a field declaration that is legal in the syntax (no label outside proto2) *)
+FieldDecl(sy) == IF sy = "proto2" THEN "optional int32 f = 1" ELSE "int32 f = 1"
+Prefix(c, sy) == CASE c = "fieldopt"   -> "message M { " \o FieldDecl(sy) \o " ["
+                   [] c = "enumval"    -> "enum E { A = 0 ["
+                   [] c = "extrange"   -> "message M { extensions 1 to 2 ["
+                   [] c = "oneoffield" -> "message M { oneof o { int32 f = 1 ["
+                   [] c = "msgbody"    -> "message M {"
+                   [] OTHER -> ""
+Suffix(c) == CASE c \in {"fieldopt", "enumval", "extrange"} -> "]; }"
+               [] c = "oneoffield" -> "]; } }"
+               [] c = "msgbody" -> "}"
+               [] OTHER -> ""
+RECURSIVE JoinSp(_)
+JoinSp(ts) == IF ts = <<>> THEN "" ELSE IF Len(ts) = 1 THEN ts[1] ELSE ts[1] \o " " \o JoinSp(Tail(ts))
+TokLines == <<Header(syn), Prefix(ctx, syn), JoinSp(text), Suffix(ctx)>>
+TokCase == [ctx |-> ctx, syn |-> syn, toks |-> text, lines |-> TokLines, nlines |-> 4,
+            widths |-> [i \in 1..4 |-> Len(TokLines[i])]]
+
+TokInit == /\ text = <<>> /\ bom = FALSE
+           /\ \E b \in TokBounds : ctx = b[1] /\ syn = b[2]
+TokNext == /\ \E b \in TokBounds : b[1] = ctx /\ b[2] = syn /\ Len(text) < b[3]
+           /\ \E t \in ToksOf(ctx) : text' = Append(text, t)
+           /\ UNCHANGED <<bom, ctx, syn>>
+
+-----------------------------------------------------------------------------
+BytesInit == text = <<>> /\ bom \in Boms /\ ctx = "bytes" /\ syn = "none"
+BytesNext == /\ Len(text) < (IF bom THEN BomMaxLen ELSE MaxLen)
+             /\ \E c \in Alphabet : text' = Append(text, c)
+             /\ UNCHANGED <<bom, ctx, syn>>
+
+Init == IF Family = "bytes" THEN BytesInit ELSE TokInit
+Next == IF Family = "bytes" THEN BytesNext ELSE TokNext
 Spec == Init /\ [][Next]_vars
 
-Case == [bom |-> IF bom THEN 1 ELSE 0, text |-> text, nlines |-> NLines(text), widths |-> LineTable(text)]
+Case == IF Family = "bytes"
+        THEN [bom |-> IF bom THEN 1 ELSE 0, text |-> text, nlines |-> NLines(text), widths |-> LineTable(text)]
+        ELSE TokCase
 
 (* spec-level sanity of the line table: widths of all lines plus the LFs account for every
    character when there is no TAB (a TAB only ever makes a line wider) *)
 RECURSIVE SumW(_, _)
 SumW(w, n) == IF n = 0 THEN 0 ELSE w[n] + SumW(w, n - 1)
 TableSane ==
+  Family = "bytes" =>
   LET w == LineTable(text) n == NLines(text)
   IN /\ n = 1 + Cardinality({j \in 1..Len(text) : text[j] = "N"})
      /\ SumW(w, n) + (n - 1) >= Len(text)
